@@ -309,6 +309,12 @@ def main(argv):
     if not os.path.abspath(barril.__file__).startswith(os.path.abspath(SRC)):
         print("HARNESS-ERROR: barril imported from %s, expected under %s" % (barril.__file__, SRC))
         return 2
+    import warnings
+
+    import numpy
+
+    warnings.filterwarnings("ignore")
+    numpy.seterr(all="ignore")
     ctx = Ctx(prop_id, tier, seed)
     t0 = time.time()
     try:
